@@ -338,6 +338,83 @@ theorem observation_O1_small_max_panics :
     outs (init 499 : State Nat) [(0, Op.ping 7 none), (10, Op.pong 7), (20, Op.ping 8 none)] =
       [Out.ok, Out.ok, Out.panic] := by decide
 
+/-! ### The actor: one tracker per connection -/
+
+/-- **Each connection's tracker is the tracker of that connection's own history**: whatever
+happened before (earlier connections, their pings, how they ended), the tracker of the current
+connection is `PingTracker::default()` run on the operations performed on *this* connection. -/
+theorem conn_tracker_is_its_own_history (h : List (Nat × AOp δ)) (c : Conn δ)
+    (hc : (arun Actor.start h).conn = some c) :
+    c.tracker = exec (init pingTimeoutMs) c.events := by
+  induction h using snoc_induction generalizing c with
+  | nil => simp [arun, Actor.start] at hc
+  | snoc h e ih =>
+    have hs : arun Actor.start (h ++ [e]) = (astep (arun Actor.start h) e.1 e.2).1 := by
+      simp [arun, List.foldl_append]
+    rw [hs] at hc
+    obtain ⟨t, op⟩ := e
+    generalize arun Actor.start h = a at *
+    cases op with
+    | connected =>
+      simp only [astep] at hc
+      cases ha : a.conn with
+      | none => simp only [ha] at hc; cases hc; rfl
+      | some c0 => simp only [ha] at hc; rw [← ha] at hc; exact ih c hc
+    | lost =>
+      simp only [astep] at hc
+      cases ha : a.conn with
+      | none => simp only [ha] at hc; cases hc
+      | some c0 => simp only [ha] at hc; cases hc
+    | tr o =>
+      simp only [astep] at hc
+      cases ha : a.conn with
+      | none => simp only [ha] at hc; cases hc
+      | some c0 =>
+        simp only [ha] at hc
+        by_cases hf : (step c0.tracker t o).2 = Out.fired
+        · simp only [hf, if_true] at hc; cases hc
+        · simp only [hf, if_false, Option.some.injEq] at hc
+          cases hc
+          simp only
+          rw [exec_snoc, ← ih c0 ha]
+
+/-- **A new connection starts without an outstanding ping** (and without a remembered RTT):
+its tracker is a fresh `PingTracker::default()`. -/
+theorem new_connection_starts_without_outstanding_ping (a : Actor δ) (now : Nat) (c : Conn δ)
+    (hd : a.conn = none) (hc : (astep a now AOp.connected).1.conn = some c) :
+    c.tracker.inner = none ∧ c.tracker.lastRtt = none ∧ c.tracker.maxTimeout = pingTimeoutMs ∧
+      c.events = [] ∧ c.id = a.next := by
+  simp only [astep, hd, Option.some.injEq] at hc
+  cases hc
+  exact ⟨rfl, rfl, rfl, rfl, rfl⟩
+
+/-- **Connection `n` is declared dead only through a ping sent on connection `n`**: if the
+timeout arm fires at `t`, the current connection is `n` and among the operations performed on
+it there is a ping — its most recent one — still unanswered, whose deadline (send time plus the
+timeout in force on *this* connection) has passed. -/
+theorem dead_only_from_ping_on_this_connection (h : List (Nat × AOp δ)) (t n : Nat) (o : Op δ)
+    (hdead : (astep (arun Actor.start h) t (AOp.tr o)).2 = AOut.dead n) :
+    ∃ c p, (arun Actor.start h).conn = some c ∧ c.id = n ∧ o = Op.poll ∧
+      Latest pingTimeoutMs c.events p ∧ p.deadline ≤ t := by
+  simp only [astep] at hdead
+  cases ha : (arun Actor.start h).conn with
+  | none => simp [ha] at hdead
+  | some c =>
+    simp only [ha] at hdead
+    by_cases hf : (step c.tracker t o).2 = Out.fired
+    · simp only [hf, if_true, AOut.dead.injEq] at hdead
+      have htr := conn_tracker_is_its_own_history h c ha
+      have hpoll : o = Op.poll := by
+        cases o with
+        | poll => rfl
+        | ping d to => simp only [step] at hf; split at hf <;> cases hf
+        | pong d => simp only [step] at hf; split at hf <;> (try split at hf) <;> cases hf
+      subst hpoll
+      rw [htr] at hf
+      obtain ⟨p, hl, hp⟩ := (fired_iff_latest_expired pingTimeoutMs c.events (default_no_panic _) t).1 hf
+      exact ⟨c, p, rfl, hdead, rfl, hl, hp⟩
+    · simp [hf] at hdead
+
 /-! ### Non-vacuity -/
 
 -- `Latest` is inhabited, and the hypotheses of the history theorems are satisfiable.
@@ -354,5 +431,15 @@ example : (exec (init 5000 : State Nat) [(0, Op.ping 7 none), (400, Op.pong 7)])
     (exec (init 5000 : State Nat) [(0, Op.ping 7 none)]).lastRtt := by decide
 example : Out.panic ∉ outs (init 5000 : State Nat) [(0, Op.ping 7 none), (10, Op.pong 7), (20, Op.ping 8 none)] := by
   decide
+
+-- the seeded scenario at model level: ping outstanding on connection 1, connection lost,
+-- re-dial slower than the old deadline: connection 2 is not declared dead
+example : ((arun (Actor.start : Actor Nat)
+      [(0, .connected), (0, .tr (.ping 1 none)), (0, .tr (.pong 1)), (100, .tr (.ping 2 none)),
+       (200, .lost), (1000, .connected)]).conn.map fun c => (c.id, c.tracker.inner.isSome)) =
+    some (2, false) := by decide
+example : (astep (arun (Actor.start : Actor Nat)
+      [(0, .connected), (0, .tr (.ping 1 none)), (0, .tr (.pong 1)), (100, .tr (.ping 2 none))]) 600
+      (.tr .poll)).2 = .dead 1 := by decide
 
 end IrohModel.C14
